@@ -88,6 +88,13 @@ fn walk<'a>(db: &'a dyn Database, node: SyntaxNode<'a>, in_use_mod: bool, out: &
                 }
                 _ => {
                     if !s.is_empty() {
+                        // A `::` before the generic arguments of the last segment of a path in
+                        // *type* position is optional (N3); in expression position it is code.
+                        let s = if kind == SyntaxKind::TokenColonColon && turbofish_in_type_position(db, node) {
+                            "::?".to_string()
+                        } else {
+                            s
+                        };
                         out.toks.push(s.clone());
                         if !in_use_mod {
                             out.toks_no_use_mod.push(s.clone());
@@ -101,6 +108,43 @@ fn walk<'a>(db: &'a dyn Database, node: SyntaxNode<'a>, in_use_mod: bool, out: &
             for c in node.get_children(db) {
                 walk(db, *c, in_use_mod, out);
             }
+        }
+    }
+}
+
+/// My own (grammar-based) classification, independent of the formatter's list: climb from the
+/// path through tuple / fixed-size-array / unary / parenthesised wrappers; the first other
+/// ancestor decides.
+fn turbofish_in_type_position<'a>(db: &'a dyn Database, token: SyntaxNode<'a>) -> bool {
+    let Some(terminal) = token.parent(db) else { return false };
+    let Some(seg) = terminal.parent(db) else { return false };
+    if seg.kind(db) != SyntaxKind::PathSegmentWithGenericArgs {
+        return false;
+    }
+    let Some(inner) = seg.parent(db) else { return false };
+    // Only the last segment.
+    if inner.get_children(db).last() != Some(&seg) {
+        return false;
+    }
+    let Some(mut cur) = inner.parent(db) else { return false }; // ExprPath
+    loop {
+        let Some(parent) = cur.parent(db) else { return false };
+        match parent.kind(db) {
+            SyntaxKind::ExprList
+            | SyntaxKind::ExprListParenthesized
+            | SyntaxKind::ExprFixedSizeArray
+            | SyntaxKind::ExprUnary
+            | SyntaxKind::ExprParenthesized => cur = parent,
+            SyntaxKind::TypeClause
+            | SyntaxKind::ReturnTypeClause
+            | SyntaxKind::GenericArgUnnamed
+            | SyntaxKind::GenericArgNamed
+            | SyntaxKind::GenericParamImplAnonymous
+            | SyntaxKind::GenericParamImplNamed
+            | SyntaxKind::ItemImpl
+            | SyntaxKind::ItemTypeAlias
+            | SyntaxKind::ImplicitsList => return true,
+            _ => return false,
         }
     }
 }
@@ -236,7 +280,8 @@ fn expand_use(t: &[&str], i: &mut usize, prefix: String, out: &mut Vec<String>) 
 ///  N1/N1': a `,` directly before a closing `)` `]` `}` `>` or `|` is dropped, unless it closes a
 ///          one-element tuple `( X , )` in tuple position (where it carries meaning);
 ///  N2: a `;` directly after `}` is dropped;
-///  N3: a `::` directly before `<` is dropped.
+///  N3: a `::` before the generic arguments of the last path segment in type position (emitted as
+///      `::?` by the lexing walk) is dropped; in expression position it is kept.
 pub fn normalize(toks: &[String]) -> Vec<String> {
     let n = toks.len();
     // Matching open paren index for each `)`, and count of top-level commas inside.
@@ -297,12 +342,7 @@ pub fn normalize(toks: &[String]) -> Vec<String> {
                     out.push(t.to_string());
                 }
             }
-            "::" => {
-                if next == Some("<") {
-                } else {
-                    out.push(t.to_string());
-                }
-            }
+            "::?" => {}
             _ => out.push(t.to_string()),
         }
     }
@@ -445,4 +485,19 @@ pub fn differ_only_in_use_sections(a: &Lexed, b: &Lexed) -> bool {
     ma.sort();
     mb.sort();
     normalize(&a.toks_no_use_mod) == normalize(&b.toks_no_use_mod) && ua == ub && ma == mb
+}
+
+/// True iff some `/` code token is followed (ignoring whitespace) by a comment.
+pub fn slash_before_comment(l: &Lexed) -> bool {
+    let mut after_slash = false;
+    for (is_code, s) in &l.segments {
+        if *is_code {
+            after_slash = s == "/";
+        } else if s.starts_with("//") {
+            if after_slash {
+                return true;
+            }
+        }
+    }
+    false
 }
